@@ -165,6 +165,17 @@ func closedCheck(k *h.Case, rp *spec.Program, out string, tag string) bool {
 		if !((ll.Op == "return" || ll.Op == "end") && ll.Args == "" || ll.Op == "goto") {
 			return bad("run-off-static", "script %s: last instruction %q (line %d) is not return/end/goto, execution can run into what follows", s.Entry, ll.Text, last+1)
 		}
+		// every control path from the entry and from every label statement (both outcomes of every
+		// test, hence every game state) stays inside the script until return/end/an outward jump
+		starts := []int{sec.Start}
+		for _, l := range labels {
+			starts = append(starts, f.Labels[l][0])
+		}
+		probs, reached := f.ReachProblems(sec, starts, userTargets)
+		if len(probs) > 0 {
+			return bad("run-off-path", "script %s: %s", s.Entry, strings.Join(probs, "; "))
+		}
+		k.Count("instructions_reached_all_paths", int64(reached))
 		k.Count("sections_checked", 1)
 	}
 	return true
